@@ -539,3 +539,8 @@ def _flat_special_contract(special):
 
 for _sp in ('even_asphere', 'polynomial', 'chebyshev'):
     _flat_special_contract(_sp)
+
+
+# concrete inputs found by the defect-hunting sub-agents (bounded replay, see contracts/hunt.py)
+from . import hunt as _hunt  # noqa: E402
+_hunt.register('C01')
